@@ -20,6 +20,10 @@ CHECKS.update({
    technique='deterministic simulation: invariant monitor over every prefix of schedule-dependent step histories, shadow tableau rebuilt from public events and step() return values, step-limit faults',
    text='Every step of every explored run (all logics, fragments, options, seeded tie-break orders, step-limit cuts) is checked against a shadow tableau built only from the eight public events and step() return values: trunk content, grow-only branches, closed never extended, open view, fork prefix, one history entry per step, stat() step numbers, events exactly once; after finish the tree and stats are recomputed from the branches.',
    note='Trusts the monitor sim/checks/c16.py; stat() entries are read from the branch a node was really added on (copies only carry default-valued entries).'),
+ 'C17': dict(engine='proofsim', level='fault_enumeration', ref='DESIGN.md §6 C17',
+   technique='deterministic simulation with fault injection: virtual clock with seeded deadline jumps and stalls, enumeration of step-limit cut points against a fault-free twin, lifecycle call histories against a reference state machine',
+   text='For each sampled proof (all logics, seeded schedule/options) a fault-free twin fixes natural length n and verdict; then every step-limit cut 1..n+1 (thorough; a seeded subset in quick) plus None/0/-1, deadline faults placed at seeded clock-read indices on a virtual clock (first step, mid, last step, model generation, after completion, stalled clock, ticking clock), and a lifecycle history of API calls are injected and judged: bounded steps, unchanged proof when the limit does not bite, premature/no verdict/tree rules, timeout raised neither early nor late relative to the public build timer, finished tableaux inert, setters and rule-set mutations locked after start.',
+   note='Clock is monotone; deadline positions and lifecycle histories are sampled, cut points are enumerated per sampled proof (n<=60).'),
 })
 
 NOT_APPLICABLE = {
